@@ -345,6 +345,19 @@ where
         proofs: &[Proof<E>],
         rng: &mut R,
     ) -> Result<bool, Error> {
+        if commitments.len() != points.len()
+            || commitments.len() != values.len()
+            || commitments.len() != proofs.len()
+        {
+            // `zip` below would silently leave the surplus claims unverified
+            return Err(Error::IncorrectInputLength(format!(
+                "batch_check needs one point, value and proof per commitment: got {} commitments, {} points, {} values, {} proofs",
+                commitments.len(),
+                points.len(),
+                values.len(),
+                proofs.len()
+            )));
+        }
         let check_time =
             start_timer!(|| format!("Checking {} evaluation proofs", commitments.len()));
 
